@@ -112,10 +112,14 @@ impl Subscription {
     /// Returns the info for the subscription.
     pub async fn get_info(&self) -> Result<SubscriptionInfo, GetInfoError> {
         let (responder, recv) = oneshot::channel();
+        #[cfg(deltio_verif)]
+        crate::verif::send_point("sub.get_info.send", "sub.mailbox_full", self.sender.capacity()).await;
         self.sender
             .send(SubscriptionRequest::GetInfo { responder })
             .await
             .map_err(|_| GetInfoError::Closed)?;
+        #[cfg(deltio_verif)]
+        crate::verif::point("sub.get_info.reply").await;
         recv.await.map_err(|_| GetInfoError::Closed)?
     }
 
@@ -125,6 +129,8 @@ impl Subscription {
         max_count: u16,
     ) -> Result<Vec<PulledMessage>, PullMessagesError> {
         let (responder, recv) = oneshot::channel();
+        #[cfg(deltio_verif)]
+        crate::verif::send_point("sub.pull.send", "sub.mailbox_full", self.sender.capacity()).await;
         self.sender
             .send(SubscriptionRequest::PullMessages {
                 max_count,
@@ -132,6 +138,8 @@ impl Subscription {
             })
             .await
             .map_err(|_| PullMessagesError::Closed)?;
+        #[cfg(deltio_verif)]
+        crate::verif::point("sub.pull.reply").await;
         recv.await.map_err(|_| PullMessagesError::Closed)?
     }
 
@@ -142,6 +150,8 @@ impl Subscription {
         &self,
         new_messages: Vec<Arc<TopicMessage>>,
     ) -> Result<(), PostMessagesError> {
+        #[cfg(deltio_verif)]
+        crate::verif::send_point("sub.post.send", "sub.mailbox_full", self.sender.capacity()).await;
         self.sender
             .send(SubscriptionRequest::PostMessages {
                 messages: new_messages,
@@ -156,10 +166,14 @@ impl Subscription {
         ack_ids: Vec<AckId>,
     ) -> Result<(), AcknowledgeMessagesError> {
         let (responder, recv) = oneshot::channel();
+        #[cfg(deltio_verif)]
+        crate::verif::send_point("sub.ack.send", "sub.mailbox_full", self.sender.capacity()).await;
         self.sender
             .send(SubscriptionRequest::AcknowledgeMessages { ack_ids, responder })
             .await
             .map_err(|_| AcknowledgeMessagesError::Closed)?;
+        #[cfg(deltio_verif)]
+        crate::verif::point("sub.ack.reply").await;
         recv.await.map_err(|_| AcknowledgeMessagesError::Closed)?
     }
 
@@ -169,6 +183,8 @@ impl Subscription {
         deadline_modifications: Vec<DeadlineModification>,
     ) -> Result<(), ModifyDeadlineError> {
         let (responder, recv) = oneshot::channel();
+        #[cfg(deltio_verif)]
+        crate::verif::send_point("sub.modify.send", "sub.mailbox_full", self.sender.capacity()).await;
         self.sender
             .send(SubscriptionRequest::ModifyDeadline {
                 deadline_modifications,
@@ -176,26 +192,36 @@ impl Subscription {
             })
             .await
             .map_err(|_| ModifyDeadlineError::Closed)?;
+        #[cfg(deltio_verif)]
+        crate::verif::point("sub.modify.reply").await;
         recv.await.map_err(|_| ModifyDeadlineError::Closed)?
     }
 
     /// Gets stats for the subscription.
     pub async fn get_stats(&self) -> Result<SubscriptionStats, GetStatsError> {
         let (responder, recv) = oneshot::channel();
+        #[cfg(deltio_verif)]
+        crate::verif::send_point("sub.stats.send", "sub.mailbox_full", self.sender.capacity()).await;
         self.sender
             .send(SubscriptionRequest::GetStats { responder })
             .await
             .map_err(|_| GetStatsError::Closed)?;
+        #[cfg(deltio_verif)]
+        crate::verif::point("sub.stats.reply").await;
         recv.await.map_err(|_| GetStatsError::Closed)?
     }
 
     /// Deletes the subscription.
     pub async fn delete(&self) -> Result<(), DeleteError> {
         let (responder, recv) = oneshot::channel();
+        #[cfg(deltio_verif)]
+        crate::verif::send_point("sub.delete.send", "sub.mailbox_full", self.sender.capacity()).await;
         self.sender
             .send(SubscriptionRequest::Delete { responder })
             .await
             .map_err(|_| DeleteError::Closed)?;
+        #[cfg(deltio_verif)]
+        crate::verif::point("sub.delete.reply").await;
         recv.await.map_err(|_| DeleteError::Closed)?
     }
 }
